@@ -59,7 +59,20 @@ contract(f'{TC}::TrajectoryCalc._integrate', props=INTEGRATE_PROPS,
                    ('gravity-vector-is-the-configured-gravity', 'self.gravity_vector.y == self._config.cGravityConstant'),
                    ('cant-is-a-rotation', 'self.cant_cosine * self.cant_cosine + self.cant_sine * self.cant_sine == 1')],
          loops={0: LoopContract(invariants=INV,
+                                lemmas_end=[('time-step-is-positive', 'delta_time > 0')],
                                 hypotheses_end=[('H-fwd-the-projectile-keeps-moving-down-range', 'range_vector.x >= head(range_vector.x)')], types={'ranges': ListOf(ROW).alternatives()[0], 'filter': Flags(), 'current_flag': Flags(),
                                               'seen_zero': Flags()})},
          raises={'RangeError': None},
-         modifies=['*._defined_units'], prune=True)
+         modifies=['*._defined_units'], prune=True, heavy=True,
+         use={f'{TC}::_TrajectoryDataFilter.should_record': [
+                  'range-row-exactly-at-the-record-distance', 'recorded-distance-is-the-last-multiple-not-beyond-the-projectile',
+                  'no-multiple-is-skipped-when-a-step-advances-by-at-most-the-record-step', 'range-flag-and-bookkeeping',
+                  'time-row-only-when-no-range-row-and-the-time-step-has-passed', 'other-rows-are-the-current-state',
+                  'a-row-is-returned-exactly-when-a-requested-flag-is-raised', 'remembers-the-current-state-for-the-next-step',
+                  'seen-flags', 'settings-untouched'],
+              f'{TC}::create_trajectory_row': ['time-distance-height-are-the-state', 'density-drag-flag-passed-through',
+                                               'mach-is-speed-over-speed-of-sound'],
+              f'{TC}::TrajectoryCalc.drag_by_mach': [],
+              f'{TC}::TrajectoryCalc.spin_drift': [],
+              'py_ballisticcalc/conditions.py::Atmo.get_density_factor_and_mach_for_altitude': [
+                  'density-ratio-is-never-negative-and-speed-of-sound-is-positive']})
